@@ -118,6 +118,9 @@ pub enum LexerErrorReason {
     /// The suffix for a floating point token is not a valid suffix
     FloatInvalidSuffix,
 
+    /// An integer literal does not fit in 64 bits
+    IntLiteralTooLarge,
+
     /// A string literal wraps the end of a line (but does end before end of stream)
     StringWrapsLine,
 
@@ -151,6 +154,7 @@ impl CompileError for LexerError {
             LexerErrorReason::OtherTokenBytes => "internal lexer error",
             LexerErrorReason::EndOfStream => "unexpected end of stream",
             LexerErrorReason::FloatInvalidSuffix => "unexpected end of stream",
+            LexerErrorReason::IntLiteralTooLarge => "integer literal is too large",
             LexerErrorReason::StringWrapsLine => "string literal not terminated at end of line",
             LexerErrorReason::StringWrapsFile => "string literal never terminates",
             LexerErrorReason::StringContainsInvalidCharacters => {
@@ -262,11 +266,20 @@ fn digit(input: &[u8]) -> LexResult<'_, u64> {
 
 /// Parse multiple decimal digits into a 64-bit value
 fn digits(input: &[u8]) -> LexResult<'_, u64> {
+    let start_input = input;
     let (mut input, mut value) = digit(input)?;
     while let Ok((next_input, d)) = digit(input) {
         input = next_input;
-        value *= 10;
-        value += d;
+        // Reject values that do not fit in 64 bits instead of wrapping
+        value = match value.checked_mul(10).and_then(|v| v.checked_add(d)) {
+            Some(value) => value,
+            None => {
+                return Err(LexErrorContext(
+                    start_input,
+                    LexerErrorReason::IntLiteralTooLarge,
+                ));
+            }
+        };
     }
     Ok((input, value))
 }
@@ -321,11 +334,20 @@ fn digit_hex(input: &[u8]) -> LexResult<'_, u64> {
 
 /// Parse multiple hexadecimal digits into a 64-bit value
 fn digits_hex(input: &[u8]) -> LexResult<'_, u64> {
+    let start_input = input;
     let (mut input, mut value) = digit_hex(input)?;
     while let Ok((next_input, d)) = digit_hex(input) {
         input = next_input;
-        value *= 16;
-        value += d;
+        // Reject values that do not fit in 64 bits instead of wrapping
+        value = match value.checked_mul(16).and_then(|v| v.checked_add(d)) {
+            Some(value) => value,
+            None => {
+                return Err(LexErrorContext(
+                    start_input,
+                    LexerErrorReason::IntLiteralTooLarge,
+                ));
+            }
+        };
     }
     Ok((input, value))
 }
@@ -366,11 +388,20 @@ fn digit_octal(input: &[u8]) -> LexResult<'_, u64> {
 
 /// Parse multiple octal digits into a 64-bit value
 fn digits_octal(input: &[u8]) -> LexResult<'_, u64> {
+    let start_input = input;
     let (mut input, mut value) = digit_octal(input)?;
     while let Ok((next_input, d)) = digit_octal(input) {
         input = next_input;
-        value *= 8;
-        value += d;
+        // Reject values that do not fit in 64 bits instead of wrapping
+        value = match value.checked_mul(8).and_then(|v| v.checked_add(d)) {
+            Some(value) => value,
+            None => {
+                return Err(LexErrorContext(
+                    start_input,
+                    LexerErrorReason::IntLiteralTooLarge,
+                ));
+            }
+        };
     }
     Ok((input, value))
 }
